@@ -156,3 +156,11 @@ Definition check_sml_case (x : lcfg * list elem * list Z * Z) : bool :=
   | None => let '(l, o) := sml_adds c [] es in
             zl_eqb (map enc_err o) expected && Z.eqb (len l) n
   end.
+
+Definition check_sml_ops_case (x : lcfg * list sop * list Z * Z) : bool :=
+  let '(c, ops, expected, n) := x in
+  match cfg_check c with
+  | Some e => zl_eqb [enc_err (Some e)] expected
+  | None => let '(l, o) := sml_run c [] ops in
+            zl_eqb (map enc_err o) expected && Z.eqb (len l) n
+  end.
